@@ -21,22 +21,19 @@ class StmtMixin:
             else:
                 yield kind, s1, v
 
-    def drain(self):
-        out = self.pending_raises
-        self.pending_raises = []
-        return [("raise", s, e) for s, e in out]
-
     def exec_stmt(self, node, st):
         m = getattr(self, "st_" + type(node).__name__, None)
         if m is None: raise VCError("statement %s unsupported (line %d)" % (type(node).__name__, node.lineno))
-        saved = self.pending_raises; self.pending_raises = []
-        try:
-            for out in m(node, st):
-                yield out
-                for r in self.drain(): yield r
-            for r in self.drain(): yield r
-        finally:
-            self.pending_raises = saved
+        sink = []; prev = st.exc_sink; st.exc_sink = sink
+        def flush():
+            while sink:
+                s, e = sink.pop(0); s.exc_sink = prev
+                yield "raise", s, e
+        for kind, s1, v in m(node, st):
+            s1.exc_sink = prev
+            yield kind, s1, v
+            yield from flush()
+        yield from flush()
 
     # ------------------------------------------------------------------ simple statements
     def st_Pass(self, node, st): yield "fall", st, None
@@ -258,10 +255,10 @@ class StmtMixin:
     def discover_modified(self, body_runner, st):
         """Run the body once without emitting obligations to find which variables / heap cells it may assign."""
         self.quiet += 1
-        saved = self.pending_raises; self.pending_raises = []
         mod_env, mod_heap, alloc_changed = {}, set(), False
+        sink = []
         try:
-            probe = st.fork()
+            probe = st.fork(); probe.exc_sink = sink
             for kind, s2, v in body_runner(probe):
                 for k, sv in s2.env.items():
                     old = st.env.get(k)
@@ -269,12 +266,11 @@ class StmtMixin:
                 for k, arr in s2.heap.items():
                     if k not in st.heap or not st.heap[k].eq(arr): mod_heap.add(k)
                 if not s2.alloc.eq(st.alloc): alloc_changed = True
-            for s2, e in self.pending_raises:
+            for s2, e in sink:
                 for k, arr in s2.heap.items():
                     if k not in st.heap or not st.heap[k].eq(arr): mod_heap.add(k)
         finally:
             self.quiet -= 1
-            self.pending_raises = saved
         return mod_env, mod_heap, alloc_changed
 
     def havoc(self, st, mod_env, mod_heap, alloc_changed):
